@@ -28,7 +28,8 @@ class Boom(Exception):
 ABORT_PATTERNS = {'abort_binop': (ast.BinOp,), 'abort_list': (ast.List, ast.Tuple, ast.Set), 'abort_assign': (ast.Assign,),
                   'abort_call': (ast.Call,), 'abort_body': (ast.FunctionDef, ast.If, ast.For, ast.While, ast.With, ast.ClassDef),
                   'abort_compare': (ast.Compare,)}
-REENTRANT_PATTERNS = {'reent_list': (ast.List, ast.Tuple, ast.Set), 'reent_binop': (ast.BinOp,), 'reent_assign': (ast.Assign,)}
+REENTRANT_PATTERNS = {'reent_list': (ast.List, ast.Tuple, ast.Set), 'reent_binop': (ast.BinOp,), 'reent_assign': (ast.Assign,),
+                      'reent_same_qlist': (ast.List, ast.Tuple, ast.Set), 'reent_same_call': (ast.Call,)}
 # back-references whose tag may stay unset on the path taken + a probe that can only match if some tag leaked
 LEAK_SENSITIVE = ['or_backref_list', 'or_backref_binop', 'or_backref_assign', 'opt_backref_tuple', 'probe_tags']
 
@@ -70,6 +71,20 @@ def build_fault_pattern(name, k):
             if calls[0] <= k:
                 _inner_matches()
             return True
+    if name.startswith('reent_same'):
+        # re-entrant use of the SAME pattern object (a recursive pattern): the callback matches the very pattern it is
+        # part of against a small unrelated tree, while the outer match is in the middle of a quantified sub-list
+        import fst
+        box = {}
+
+        def cb2(tgt):
+            calls[0] += 1
+            if calls[0] <= k:
+                box['p'].match(fst.FST('[q, [], r]' if 'qlist' in name else 'g(q, [], r)'))
+            return True
+        sub = [m.MQSTAR([m.M(first=m.MName), m.MCB(cb2)]), m.MQSTAR(rest=...)]
+        box['p'] = _seq(m, sub) if 'qlist' in name else m.MCall(args=sub)
+        return box['p'], calls
     cb = m.MCB(cb)
     return _fault_pattern(m, name, cb), calls
 
@@ -360,10 +375,10 @@ class MatchRun:
                 nodes = [n for n in nodes if isinstance(n.a, classes)] or nodes
             return nodes[k % len(nodes)]
 
-        def do_fault(tree, p):
+        def do_fault(tree, p, k=None):
             """An aborted (callback raises) or re-entrant (callback matches) match / search.  Returns its outcome."""
             n = node_of(tree, p['node'], p['pat'])
-            pat, calls = build_fault_pattern(p['pat'], p['k'])
+            pat, calls = build_fault_pattern(p['pat'], p['k'] if k is None else k)
             out = []
             try:
                 if p['via'] == 'search':
@@ -373,6 +388,14 @@ class MatchRun:
                     out = render(tree, n.match(pat))
             except Boom:
                 out = ('BOOM', out if p['via'] == 'search' else None)
+            if k is None and p['pat'].startswith('reent') and calls[0]:
+                # the callbacks return True whatever they do inside: the outer outcome must be the one obtained with
+                # quiet callbacks (k=0: no inner matches at all)
+                quiet, _ = do_fault(tree, p, k=0)
+                self.stats['reentrant_vs_quiet_checks'] += 1
+                if quiet != out and self.viol is None:
+                    self.viol = {'kind': 'match_result_depends_on_matches_made_in_callback', 'step': 0,
+                                 'detail': f'{p!r}: with inner matches={out!r} quiet callbacks={quiet!r}'[:1200]}
             return out, calls[0]
 
         def party_alone(p):
